@@ -950,8 +950,49 @@ impl<'t, 'a, 'b> Gen<'t, 'a, 'b> {
         e(acc_ty.clone(), EKind::Std(StdFn::ListFold, vec![l, init, e(fty, EKind::Lambda(Box::new(def)))]))
     }
 
+    /// a library higher-order function whose callback runs the same library function again (re-entrancy of the
+    /// runtime library): `filter(L, pu x -> filter(L2, pu y -> y < x) != [])`, `map(L, pu x -> fold(map(L2, ..), ..))`
+    fn nested_hof(&mut self, ctx: &mut FnCtx) -> Expr {
+        let li = Ty::List(Box::new(Ty::Int));
+        let mut lit = |g: &mut Self| -> Expr {
+            let n = 2 + g.t.below(3);
+            let xs: Vec<Expr> = (0..n).map(|_| int(g.t.range(-3, 9))).collect();
+            e(Ty::List(Box::new(Ty::Int)), EKind::List(xs))
+        };
+        let l1 = lit(self);
+        let l2 = lit(self);
+        let x = self.fresh("p", Ty::Int, VarKind::Param, false);
+        let y = self.fresh("p", Ty::Int, VarKind::Param, false);
+        let cmp = *self.t.pick(&[BinOp::Lt, BinOp::Gt, BinOp::Le, BinOp::Ne]);
+        self.cost(ctx, 10);
+        self.fn_exprs += 2;
+        let pred_ty = Ty::Fn(vec![Ty::Int], Box::new(Ty::Bool), true);
+        let map_ty = Ty::Fn(vec![Ty::Int], Box::new(Ty::Int), true);
+        let lam = |params: Vec<VarId>, ret: Ty, value: Expr| FnDef { params, ret, body: Block { stmts: vec![], value: Some(Box::new(value)) }, pure: true };
+        if self.t.bool() {
+            // filter in filter
+            let inner_pred = lam(vec![y], Ty::Bool, bin(cmp, Ty::Bool, var(&self.p, y), var(&self.p, x)));
+            let inner = e(li.clone(), EKind::Std(StdFn::ListFilter, vec![l2, e(pred_ty.clone(), EKind::Lambda(Box::new(inner_pred)))]));
+            let outer_body = bin(BinOp::Ne, Ty::Bool, inner, e(li.clone(), EKind::List(vec![])));
+            let outer_pred = lam(vec![x], Ty::Bool, outer_body);
+            e(li, EKind::Std(StdFn::ListFilter, vec![l1, e(pred_ty, EKind::Lambda(Box::new(outer_pred)))]))
+        } else {
+            // map in map (through a comparison of the inner result, so that the value depends on it)
+            let inner_f = lam(vec![y], Ty::Int, bin(BinOp::Add, Ty::Int, var(&self.p, y), var(&self.p, x)));
+            let inner = e(li.clone(), EKind::Std(StdFn::ListMap, vec![l2.clone(), e(map_ty.clone(), EKind::Lambda(Box::new(inner_f)))]));
+            let same = bin(BinOp::Eq, Ty::Bool, inner, l2);
+            let then_b = Block { stmts: vec![], value: Some(Box::new(var(&self.p, x))) };
+            let else_b = Block { stmts: vec![], value: Some(Box::new(bin(BinOp::Mul, Ty::Int, var(&self.p, x), int(10)))) };
+            let outer_f = lam(vec![x], Ty::Int, e(Ty::Int, EKind::If(vec![(same, then_b)], Some(else_b))));
+            e(li, EKind::Std(StdFn::ListMap, vec![l1, e(map_ty, EKind::Lambda(Box::new(outer_f)))]))
+        }
+    }
+
     fn map_filter_expr(&mut self, out_inner: &Ty, d: usize, ctx: &mut FnCtx) -> Expr {
         let out_ty = Ty::List(Box::new(out_inner.clone()));
+        if *out_inner == Ty::Int && self.cfg.reentrant_bias >= 2 && self.t.chance(1, 2) {
+            return self.nested_hof(ctx);
+        }
         if self.t.bool() {
             // filter
             let l = self.expr_c(&out_ty, d, ctx);
